@@ -56,6 +56,12 @@ def single_result_shapes():
     for vseed in (11, 12, 13, 14):
         ms, mo = gen.shape_multiref(random.Random(vseed))
         mk("multiref%d" % vseed, ms, mo)
+    # the result is complete while several loops still wait to be enabled by a slower step: the loops are closed while that
+    # step's events keep the run loop busy
+    lsub = gen.sub_program("sub3.yaml", 1)
+    mk("loops_still_waiting_to_be_enabled", [gen.plugin_step("q", Expr(In("tag"))), gen.plugin_step("g", gen.tagref("q"), extra_input={"b": True})] +
+       [Step("L%d" % k, "foreach", sub=lsub, items=[{"tag": "i0"}], enabled=Expr(Ref("g", "outputs", "success", "b"))) for k in range(4)],
+       {"success": {"q": gen.tagref("q")}}, scripts_extra={"g": {"deploys": [{}, {"delay_ms": 15}]}})
     mk("no_output_possible", [gen.plugin_step("a", Expr(In("tag"))), gen.plugin_step("b", gen.tagref("a"))],
        {"success": {"b": gen.tagref("b")}}, outcome={"a": "error"})
     return out
